@@ -11,6 +11,8 @@ CHECKS = {
          "§5 C05", "Lean 4 proof over the generated transcoder table (finite domain = the registry) + ast translator + sentinel-probe correspondence"),
  "C06": ("proof that every decoded field is the little-endian integer at the offset obtained from the specification's layout, in both directions; the layouts read off decode and _encode are proved equal to the hand-transcribed spec table (decide +kernel), field names included",
          "§5 C06", "Lean 4 proof (offset lemmas) + generated-layout = spec-layout obligation + independent spec reader as oracle"),
+ "C08": ("proof, for every well-formed STR/STRx table (any offsets: shared, unsorted, interior; unreferenced entries; empty) and every request list of 7-bit strings, that the editor model succeeds, keeps every existing id's text, gives every requested string an id resolving to exactly it, appends only the not-yet-resolvable requests once each, yields a well-formed table, is idempotent, fails loudly on offset overflow, and that STR->STRx preserves the id->text map; model tied to both editors and the generator by a correspondence run with an independent offset reader",
+         "§5 C08", "Lean 4 proof (induction on string data / request list) + hand model of the editors tied by differential correspondence"),
  "C12": ("proof, for every flag codec / enumeration / the AI-script and hit-point codecs as regenerated from the source, of number->rich->number and rich->number->rich exactness on the WHOLE domain (statements over all natural numbers, proved by induction on bits / membership, not by enumeration), injectivity, and rejection of every non-member number; plus exhaustive correspondence of the model with the real helpers",
          "§5 C12", "Lean 4 proof (bit induction, finite-table obligations by decide +kernel) + ast translator of bit layouts/enums + exhaustive differential correspondence"),
  "C19": ("proof that the decoder model is total (well-founded recursion on the remaining input) and that every accepted input re-encodes to bytes that decode to the same model (c19_writable, for all byte strings); tied to the code by correspondence on a malformed-input stream",
